@@ -82,6 +82,7 @@ struct ClmRoundtrip : Family {
 			if (r.chance(1, 3)) w.set("padlast", 1);
 			p.world.push_back(w);
 		}
+		for (auto& l : p.world) if (l.verb == "wav") { if (r.chance(1, 12)) l.set("inner", 1 + r.below(2)); else if (r.chance(1, 12)) l.set("pat", 1 + r.below(6)); }
 		for (size_t i = p.world.size(); i > 2; --i) std::swap(p.world[i - 1], p.world[1 + r.below(i - 1)]);
 		swarmEnv(p, r, true, true, big);
 		uint64_t mode = r.below(15); if (mode >= 10) mode = 0; // 0..4 plain; 5 notriff; 6 badsize; 7 fmtdiff; 8 longname; 9 dupcase
@@ -153,8 +154,17 @@ struct ClmRoundtrip : Family {
 			w.between = chunksFor(cs ^ 2, l.u("mid", 0));
 			w.afterData = chunksFor(cs ^ 3, l.u("post", 0));
 			w.padLastData = l.u("padlast", 0) != 0;
-			w.data = prngBytes(cs, static_cast<size_t>(l.u("len", 0)));
-			if (w.data.size() > (1u << 20)) throw std::runtime_error("wav too large");
+			if (l.u("len", 0) > (1u << 20)) throw std::runtime_error("wav too large");
+			w.data = patternBytes(cs, static_cast<size_t>(l.u("len", 0)), l.u("pat", 0));
+			if (l.u("inner", 0)) {
+				// the audio data is itself a complete, self-consistent WAV file of ANOTHER format (a recording of a recording): still just bytes
+				ref::WavSpec inner;
+				inner.fmt = common; inner.fmt.rate ^= 0x1f40; inner.fmt.bits ^= 24; inner.fmt.channels ^= 3;
+				inner.fmt16 = l.u("inner", 0) == 2;
+				inner.data = w.data;
+				w.data = ref::encodeWav(inner);
+				ctx.count("probe.payload_is_itself_a_wav");
+			}
 			if (!w.afterData.empty()) postChunkSeen = true;
 			std::vector<uint8_t> bytes = ref::encodeWav(w);
 			if (bad == "notriff") { bytes[0] = 'X'; in.bad = true; }
